@@ -63,6 +63,11 @@ def c10_jobs(rng, quick):
         add("c128", "Encode", (), "ñ" * n)
     for n in range(0, 16):
         add("ean", "Encode", (), "0" * n)
+    for _ in range(6 if quick else 60):      # every final digit for seeded 7- and 12-digit prefixes: exactly one must be accepted
+        for n in (7, 12):
+            pre = "".join(rng.choice("0123456789") for _ in range(n))
+            for d in "0123456789":
+                add("ean", "Encode", (), pre + d)
     vers = list(range(1, 41)) if not quick else [1, 2, 9, 10, 26, 27, 39, 40]
     for v in vers:
         for level in range(4):
